@@ -68,6 +68,8 @@ class World:
             lines.append('keyfile = "%s"' % self.cert["toml"].keyfile)
         if st["rate"] == "tight":
             lines += ["", "[rate_limit]", "enabled = true", "capacity = 2", "refill_rate = 0.01", "retry_after = 7"]
+        elif st["rate"] == "frozen":
+            lines += ["", "[rate_limit]", "capacity = 3", "refill_rate = 0.0", "retry_after = 0"]
         elif st["rate"] == "off":
             lines += ["", "[rate_limit]", "enabled = false"]
         if st["acl"] == "deny":
@@ -141,6 +143,7 @@ class World:
                       {s_: os.path.realpath(c.certfile) + "|" + os.path.realpath(c.keyfile) for s_, c in self.cert.items()})}
         rl = rec.get("rate_limit_config")
         rate = "none" if rl is None else ("tight" if (rl.capacity, rl.refill_rate, rl.retry_after) == (2, 0.01, 7) else
+                                          "frozen" if (rl.capacity, rl.refill_rate, rl.retry_after) == (3, 0.0, 0) else
                                           "default" if (rl.capacity, rl.refill_rate, rl.retry_after) == (10, 1.0, 30) else
                                           "other:%r" % (rl,))
         ac = rec.get("access_control_config")
